@@ -607,6 +607,17 @@ class Use(Expr):
 @dataclass
 class Var(Ref):""")
 
+# the context grammar with a production of weight zero listed AFTER the production that can fail while it is built
+RAW_CTXW = RAW_CTX + '''
+
+@weight(0)
+@dataclass
+class Legacy(Expr):
+    v: Annotated[int, IntRange(0, 1)]
+'''
+RAW_WEIGHTED = [{"id": "ctxw", "source": RAW_CTXW, "start": "Expr", "names": ["Expr", "Literal", "Let", "Var", "Legacy"],
+                 "feats": ["raw"]}]
+
 # a refinement that INJECTS a value into the production it creates; a production further down declares a field of the
 # same name with a refinement of its own (injected values are for the production they are given to)
 RAW_SCOPED = HEADER + '''
